@@ -42,7 +42,8 @@ def main():
             for i, beh in enumerate(behs):
                 a = beh[-1]["state"]["act"]
                 goal = "cover-%s-%d:%s" % (name, i, a.get("name"))
-                sc = tc.to_script(beh, "w-" + goal, consts["K"], consts["Q"], sorted(beh[0]["state"]["st"].keys()))
+                gated = "GatedFinish = TRUE" in open(os.path.join(d, cfg)).read()
+                sc = tc.to_script(beh, "w-" + goal, consts["K"], consts["Q"], sorted(beh[0]["state"]["st"].keys()), gated=gated)
                 if sc:
                     sc["tags"] = sorted(set(sc["tags"]) | {"witness:cover"})
                     outl.append({"goal": goal, "tag": [a.get("name"), a.get("br")], "cfg": cfg, "script": sc})
